@@ -737,6 +737,9 @@ def _sk_known(p):
         A /= np.linalg.norm(A, 2)
         B /= np.linalg.norm(B, 2)
         return np.kron(A, B), 1.0
+    if fam == "diagonal":  # diag(q) in the computational (product) basis, q >= 0: max q
+        q = rng.random(n) + 0.05
+        return np.diag(q), float(q.max())
     if fam == "local-diagonal":  # (U (x) V) diag(q) (U (x) V)^dagger, q >= 0: max q (a product eigenvector attains it)
         q = rng.random(n) + 0.05
         W = _local(dA, dB, rng)
@@ -745,28 +748,47 @@ def _sk_known(p):
     raise ValueError(fam)
 
 
-def _sk_call(p, X):
+def _sk_call(p, X, retry=True):
+    """sk_operator_norm on X.  The library's randomised lower bound draws from the global numpy RNG and breaks down (LinAlgError / ValueError raised from
+    its own code) for some draws; the value clauses re-draw up to 6 times so that they judge a returned pair of bounds, while the clause
+    sknorm.returns_normally reports the breakdown itself (single draw, retry=False)."""
     import numpy as np
 
     from toqito.matrix_props.sk_norm import sk_operator_norm
     from vt.contract import Undecided, Violation
 
-    np.random.seed(p.get("seed", 0) % (2**31))
     dA, dB = p["dims"]
     f = p.get("dimform", "list")
     dim = [int(dA), int(dB)] if f == "list" else (int(dA) if f == "scalar" else None)
-    try:
-        res = sk_operator_norm(X, p["k"], dim, None, p.get("effort", 1))
-    except ValueError as e:
-        if "Numerical problems" in str(e):
-            raise Undecided("sk_operator_norm: SDP solver status not optimal")
-        raise
+    res = None
+    last = None
+    for attempt in range(6 if retry else 1):
+        np.random.seed((p.get("seed", 0) + 7919 * attempt) % (2**31))
+        try:
+            res = sk_operator_norm(X, p["k"], dim, None, p.get("effort", 1))
+            last = None
+            break
+        except ValueError as e:
+            if "Numerical problems" in str(e):
+                raise Undecided("sk_operator_norm: SDP solver status not optimal")
+            last = e
+        except np.linalg.LinAlgError as e:
+            last = e
+    if last is not None:
+        raise last
     if not isinstance(res, tuple) or len(res) != 2:
         raise Violation("sk_operator_norm returned %r, documented to return (lower, upper)" % (res,))
     lo, up = float(np.real(res[0])), float(np.real(res[1]))
     if not (np.isfinite(lo) and np.isfinite(up)):
         raise Undecided("sk_operator_norm returned non-finite bounds %r" % (res,))
     return lo, up
+
+
+def sk_returns(p):
+    """sk_operator_norm returns a pair of bounds (does not raise) on an admissible operator, for the RNG draw fixed by the seed"""
+    X, val = _sk_known(p)
+    lo, up = _sk_call(p, X, retry=False)
+    return {"lower": lo, "upper": up, "value": val}
 
 
 def sk_upper_ge_known(p):
@@ -972,6 +994,7 @@ CLAUSES = {
     "entropy.additive": entropy_additive,
     "isprod.accepts": isprod_accepts,
     "isprod.rejects": isprod_rejects,
+    "sknorm.returns_normally": sk_returns,
     "sknorm.upper_ge_known": sk_upper_ge_known,
     "sknorm.lower_le_known": sk_lower_le_known,
     "sknorm.upper_ge_attained": sk_upper_ge_attained,
@@ -996,6 +1019,7 @@ _FN = {
     "entropy.additive": "von_neumann_entropy",
     "isprod.accepts": "is_product",
     "isprod.rejects": "is_product",
+    "sknorm.returns_normally": "sk_operator_norm",
     "sknorm.upper_ge_known": "sk_operator_norm",
     "sknorm.lower_le_known": "sk_operator_norm",
     "sknorm.upper_ge_attained": "sk_operator_norm",
@@ -1137,18 +1161,23 @@ def cases(tier, seed):
         d = [dA, dB]
         m = min(dA, dB)
         for k in range(1, m + 1):
-            for fam in ("shifted-pure", "rank-one", "product-herm", "product-psd", "product-general", "local-diagonal"):
+            for fam in ("shifted-pure", "rank-one", "product-herm", "product-psd", "product-general", "local-diagonal", "diagonal"):
                 rs = range(1, m + 1) if fam in ("shifted-pure", "rank-one") else [1]
                 for r in rs:
                     for eff in (0, 1):
                         if eff == 1 and fam not in ("shifted-pure", "local-diagonal", "product-psd"):
                             continue  # effort only matters on the PSD path
-                        q = dict(dims=d, k=k, family=fam, r=r, r2=max(1, m - r + 1), profile="generic", seed=seed, effort=eff, dimform="list")
                         ropt = r if fam == "shifted-pure" else 1
                         kc = "k=min-dim" if k >= m else ("analytic" if fam == "rank-one" else ("k>optimum-rank" if k > ropt else "k<=optimum-rank"))
                         ic = "sk_operator_norm/%s/%s/%s" % (fam, _eq(d), kc)
-                        add("sknorm.upper_ge_known", q, ic, True)
-                        add("sknorm.lower_le_known", q, ic, True)
+                        # the randomised lower bound is the fragile part: several RNG draws where it is exercised (PSD input, k below the smaller dimension)
+                        nseeds = (4 if thorough else 2) if (kc.startswith("k>") or kc.startswith("k<=")) and fam in ("shifted-pure", "local-diagonal", "diagonal", "product-psd") and eff == 0 else 1
+                        for i in range(nseeds):
+                            q = dict(dims=d, k=k, family=fam, r=r, r2=max(1, m - r + 1), profile="generic", seed=seed + i, effort=eff, dimform="list")
+                            add("sknorm.upper_ge_known", q, ic, True)
+                            add("sknorm.lower_le_known", q, ic, True)
+                            if kc not in ("k=min-dim", "analytic"):
+                                add("sknorm.returns_normally", q, ic, True)
             if dA == dB:
                 q = dict(dims=d, k=k, family="shifted-pure", r=m, profile="geometric", seed=seed, effort=1, dimform="omitted")
                 add("sknorm.upper_ge_known", q, "sk_operator_norm/shifted-pure/dim=omitted", True)
@@ -1167,10 +1196,11 @@ def cases(tier, seed):
         for k in range(1, m + 1):
             add("blockpos.accepts", dict(dims=d, k=k, family="psd", r=1, seed=seed), "is_block_positive/psd/%s" % _eq(d), True)
             add("blockpos.rejects", dict(dims=d, k=k, family="negative-product", r=1, seed=seed), "is_block_positive/negative-product/%s" % _eq(d), True)
-        if dA * dB <= 9:
-            eff = 2 if dA * dB <= 6 else 1
-            add("blockpos.accepts", dict(dims=d, k=1, family="witness-plus", r=2, profile="equal", delta=0.05, seed=seed, effort=eff), "is_block_positive/witness-plus/%s" % _eq(d), True)
-            add("blockpos.rejects", dict(dims=d, k=1, family="witness-minus", r=2, profile="equal", delta=0.05, seed=seed, effort=eff), "is_block_positive/witness-minus/%s" % _eq(d), True)
-            if m >= 3:
-                add("blockpos.rejects", dict(dims=d, k=2, family="witness-k2", r=2, profile="equal", delta=0.2, seed=seed, effort=eff), "is_block_positive/witness-k2/%s" % _eq(d), True)
+        eff = 2 if dA * dB <= 9 else 1
+        add("blockpos.accepts", dict(dims=d, k=1, family="witness-plus", r=2, profile="equal", delta=0.05, seed=seed, effort=eff), "is_block_positive/witness-plus/%s" % _eq(d), True)
+        add("blockpos.rejects", dict(dims=d, k=1, family="witness-minus", r=2, profile="equal", delta=0.05, seed=seed, effort=eff), "is_block_positive/witness-minus/%s" % _eq(d), True)
+        if m >= 3:
+            # W + delta*I is 2-block positive iff delta >= s0 s1 (= 1/2 for two equal coefficients)
+            add("blockpos.rejects", dict(dims=d, k=2, family="witness-k2", r=2, profile="equal", delta=0.2, seed=seed, effort=eff), "is_block_positive/witness-k2/%s" % _eq(d), True)
+            add("blockpos.accepts", dict(dims=d, k=2, family="witness-plus", r=2, profile="equal", delta=0.6, seed=seed, effort=eff), "is_block_positive/witness-k2-plus/%s" % _eq(d), True)
     return out
